@@ -21,6 +21,8 @@ from . import pyfacts as pf
 from . import nf
 from .nf import where, sym, num
 
+NP_METHODS = {"sum", "mean", "min", "max", "any", "all", "prod", "cumsum", "argmin", "argmax", "dot", "std", "var", "clip", "nonzero",
+              "cumprod", "round", "conj", "transpose"}
 MUTATORS = {"pop", "append", "extend", "update", "setdefault", "sort", "remove", "insert", "clear", "fill", "resize", "popitem",
             "add", "discard", "reverse", "put", "itemset", "setflags", "write", "writelines", "close", "release", "seek"}
 NOOP_CALLS = ("logging.", "logger.", "print", "warnings.", "log.", "sys.stdout", "sys.stderr")
@@ -256,6 +258,8 @@ class PyVal:
                 if isinstance(op, ast.Pow): return l ** r
             except TypeError:
                 pass
+            if isinstance(op, ast.MatMult):
+                return F("np_dot")(l, r)
             if isinstance(op, ast.BitAnd):
                 return mk_bool("band", [l, r])
             if isinstance(op, ast.BitOr):
@@ -427,6 +431,12 @@ class PyVal:
                 and name.split(".")[0] not in ("np", "numpy", "copy"):
             recv = self._v(f0.value, env)
             return F("copyof" if f0.attr == "copy" else "keysof")(recv)
+        if isinstance(f0, ast.Attribute) and f0.attr in NP_METHODS and name.split(".")[0] not in ("np", "numpy", "math", "os", "re", "sys"):
+            # x.sum(axis=0) is np.sum(x, axis=0): the method and function spellings of the numpy reductions are one value
+            recv = self._v(f0.value, env)
+            fake = ast.Call(func=ast.Attribute(value=ast.Name("np", ast.Load()), attr=f0.attr, ctx=ast.Load()),
+                            args=[f0.value] + list(node.args), keywords=node.keywords)
+            return self._call_value(fake, env, "np." + f0.attr, [recv] + list(args), kwv)
         if name == "dict" and not args and kwv and "**" not in kwv:
             return F("dict")(*[F("kv")(sym(repr(k)), v) for k, v in kwv.items()])
         if not kwv and len(args) == 1:
